@@ -377,6 +377,16 @@ fn observe<W: TW, B: AsRef<[W]>>(cx: &mut Ctx, v: &BitFieldVec<W, B>, model: &[u
     }
     let x = cx.must("iter.next", || it.next())?;
     cx.check(x.is_none(), "iter.end", || "iter() yields past the end".into())?;
+    // the rest of the Iterator protocol (nth, skip, step_by, count, last, ...) against the model's iterator
+    let script = model.iter().take(4).fold((model.len() as u64).wrapping_mul(0x9E37_79B9_7F4A_7C15) ^ width as u64, |a, x| a.rotate_left(9) ^ *x as u64);
+    let want: Vec<u128> = model.to_vec();
+    let it = cx.must("iter", || v.iter())?;
+    iter_protocol(cx, "iter", it.map(|x| x.to128()), &want, script)?;
+    if !model.is_empty() {
+        let from = (script >> 20) as usize % (model.len() + 1);
+        let it = cx.must("iter_from", || v.into_iter_from(from))?;
+        iter_protocol(cx, "iter_from", it.map(|x| x.to128()), &want[from..], script ^ 0x5555)?;
+    }
     Ok(())
 }
 
@@ -578,6 +588,22 @@ fn run_w<W: C05Ext>(u: &mut Unstructured, cx: &mut Ctx) -> R {
                 cx.check(e, "eq", || "== false against a vector with the same width and values".into())?;
                 let ne = cx.must("ne", || v != c)?;
                 cx.check(!ne, "eq", || "!= true against an identical vector".into())?;
+                // borrowed views over the very same words: equal with the same shape, different otherwise
+                let words: &[W] = v.as_slice();
+                let full = unsafe { BitFieldVec::<W, &[W]>::from_raw_parts(words, width, len) };
+                let e = cx.must("eq", || v == full && full == v)?;
+                cx.check(e, "eq.view", || "== false against a borrowed view of the same words, width and length".into())?;
+                if len > 0 {
+                    cx.label("eq_alias_views");
+                    let prefix = unsafe { BitFieldVec::<W, &[W]>::from_raw_parts(words, width, len - 1) };
+                    let e = cx.must("eq", || v == prefix || prefix == full)?;
+                    cx.check(!e, "eq.view", || format!("== true between a vector of {len} elements and a view of its first {} elements over the same words", len - 1))?;
+                    if width > 1 {
+                        let narrow = unsafe { BitFieldVec::<W, &[W]>::from_raw_parts(words, width - 1, len) };
+                        let e = cx.must("eq", || v == narrow || narrow == full)?;
+                        cx.check(!e, "eq.view", || format!("== true between views of bit width {width} and {} over the same words", width - 1))?;
+                    }
+                }
             }
             Op::NeOne(sel) => {
                 if len > 0 && width > 0 {
@@ -662,7 +688,7 @@ impl Property for C05 {
         ]
     }
     fn rule(&self) -> &'static str {
-        "case = (word type, bit width 0..=BITS, construction route, <=60 ops incl. atomic scripts, conversions and a Scribble op that writes garbage through the safe as_mut_slice() into the backend bits beyond len*width) decoded from bytes; model = Vec of values; len/bit_width/every get/iter with exact length hints compared after every op; values that do not fit and indices out of range must panic and leave the contents unchanged. set() with width 0 is never generated (documented as undefined). Non-trivial: at least one write followed by a later read and at least one growth or shrink; distinct = distinct hash of the decoded history."
+        "case = (word type, bit width 0..=BITS, construction route, <=60 ops incl. atomic scripts, conversions and a Scribble op that writes garbage through the safe as_mut_slice() into the backend bits beyond len*width) decoded from bytes; model = Vec of values; len/bit_width/every get/iter with exact length hints compared after every op; values that do not fit and indices out of range must panic and leave the contents unchanged. set() with width 0 is never generated (documented as undefined). Every iterator is also driven through a generated script of next/nth/size_hint steps and one consuming adaptor (count, last, collect, step_by, skip, fold) in lock-step with the model's iterator. Equality is also taken between the vector and borrowed views over its own words (same shape: equal; one element shorter or one bit narrower: different). Non-trivial: at least one write followed by a later read and at least one growth or shrink; distinct = distinct hash of the decoded history."
     }
     fn run(&self, data: &[u8], cx: &mut Ctx) -> R {
         let (mode, rest) = data.split_first().unwrap_or((&0, &[]));
